@@ -38,6 +38,7 @@ impl DNSIterable for EdnsIterator<'_> {
 
     fn recompute_sections(&mut self) {
         self.rr_iterator.parsed_packet.recompute().unwrap();
+        self.rr_iterator.parsed_packet.maybe_compressed = false;
     }
 
     #[inline]
